@@ -37,27 +37,39 @@ func genC03(t *rapid.T) interface{} {
 	return sc
 }
 
-// decorFinalText evaluates the wrapper stack of a decorator for a finished
-// bar: the fixed message a wrapper substitutes, or "" when the inner
-// decorator's own text is shown.
-func decorFinalText(wraps []string, completed, aborted bool) string {
+// decorFinalText evaluates the wrapper stack of a decorator for a bar in the
+// given state: the message a wrapper substitutes (possibly empty) and true, or
+// "", false when the inner decorator's own text is shown.
+func decorFinalText(wraps []string, completed, aborted bool) (string, bool) {
 	for i := len(wraps) - 1; i >= 0; i-- {
 		switch wraps[i] {
 		case "oncomplete":
 			if completed {
-				return "done"
+				return "done", true
 			}
 		case "onabort":
 			if aborted {
-				return "abrt"
+				return "abrt", true
 			}
 		case "ocoa":
 			if completed || aborted {
-				return "fin"
+				return "fin", true
+			}
+		case "oncomplete-e":
+			if completed {
+				return "", true
+			}
+		case "onabort-e":
+			if aborted {
+				return "", true
+			}
+		case "ocoa-e":
+			if completed || aborted {
+				return "", true
 			}
 		}
 	}
-	return ""
+	return "", false
 }
 
 // checkFinalRow compares one bar's row in the last frame with its end state.
@@ -79,7 +91,7 @@ func checkFinalRow(sc *engine.Scenario, i int, row *engine.Row, e engine.EndBar)
 	}
 	want := map[string]int{}
 	for _, d := range spec.Decors {
-		if txt := decorFinalText(d.Wrap, e.Completed, e.Aborted); txt != "" {
+		if txt, sub := decorFinalText(d.Wrap, e.Completed, e.Aborted); sub && txt != "" {
 			want[txt]++
 		}
 	}
